@@ -63,9 +63,10 @@ type exprOut struct {
 }
 
 type conv struct {
-	quals map[string]string // qualifier -> path
-	dst   string
-	err   error
+	quals   map[string]string // qualifier -> path
+	dst     string
+	tparams map[string]bool // type parameters in scope (of the receiver / given by the caller)
+	err     error
 }
 
 func leaf(k, p, n string) term { return term{K: k, P: p, N: n, A: []term{}} }
@@ -89,6 +90,9 @@ func raw(e ast.Expr) term {
 func (c *conv) typ(e ast.Expr) term {
 	switch t := e.(type) {
 	case *ast.Ident:
+		if c.tparams[t.Name] {
+			return leaf("tparam", "", t.Name)
+		}
 		if types.Universe.Lookup(t.Name) != nil {
 			return leaf("basic", "", t.Name)
 		}
@@ -105,6 +109,14 @@ func (c *conv) typ(e ast.Expr) term {
 		return leaf("named", p, t.Sel.Name)
 	case *ast.ParenExpr:
 		return c.typ(t.X)
+	case *ast.IndexExpr: // generic instantiation g[t]
+		return con("inst", c.typ(t.X), c.typ(t.Index))
+	case *ast.IndexListExpr:
+		a := []term{c.typ(t.X)}
+		for _, ix := range t.Indices {
+			a = append(a, c.typ(ix))
+		}
+		return term{K: "inst", A: a}
 	case *ast.StarExpr:
 		return con("ptr", c.typ(t.X))
 	case *ast.ArrayType:
@@ -161,6 +173,28 @@ func (c *conv) fields(fl *ast.FieldList) (ts []term, names []string, variadic bo
 	return
 }
 
+// recvTParams returns the type parameter names a method's receiver declares (func (m *Mock[K, V]) ...).
+func recvTParams(e ast.Expr) map[string]bool {
+	out := map[string]bool{}
+	switch t := e.(type) {
+	case *ast.StarExpr:
+		return recvTParams(t.X)
+	case *ast.ParenExpr:
+		return recvTParams(t.X)
+	case *ast.IndexExpr:
+		if id, ok := t.Index.(*ast.Ident); ok {
+			out[id.Name] = true
+		}
+	case *ast.IndexListExpr:
+		for _, ix := range t.Indices {
+			if id, ok := ix.(*ast.Ident); ok {
+				out[id.Name] = true
+			}
+		}
+	}
+	return out
+}
+
 func recvName(e ast.Expr) string {
 	switch t := e.(type) {
 	case *ast.StarExpr:
@@ -212,6 +246,7 @@ func doFile(p, dst string) fileOut {
 			continue
 		}
 		c.err = nil
+		c.tparams = recvTParams(fd.Recv.List[0].Type)
 		ps, names, variadic := c.fields(fd.Type.Params)
 		rs, _, _ := c.fields(fd.Type.Results)
 		m := method{Recv: recvName(fd.Recv.List[0].Type), Name: fd.Name.Name, PNames: names, Params: ps, Results: rs, Variadic: variadic}
@@ -223,9 +258,12 @@ func doFile(p, dst string) fileOut {
 	return out
 }
 
-func doExprs(dst string, quals map[string]string, exprs []string) exprOut {
+func doExprs(dst string, quals map[string]string, tparams []string, exprs []string) exprOut {
 	out := exprOut{Terms: []term{}}
-	c := &conv{quals: quals, dst: dst}
+	c := &conv{quals: quals, dst: dst, tparams: map[string]bool{}}
+	for _, tp := range tparams {
+		c.tparams[tp] = true
+	}
 	for _, s := range exprs {
 		e, err := parser.ParseExpr(s)
 		if err != nil {
@@ -260,6 +298,7 @@ func main() {
 			ID      string            `json:"id"`
 			Dst     string            `json:"dst"`
 			Imports map[string]string `json:"imports"`
+			TParams []string          `json:"tparams"`
 			Exprs   []string          `json:"exprs"`
 		} `json:"exprs"`
 	}
@@ -275,7 +314,7 @@ func main() {
 		out.Files[f.ID] = doFile(f.Path, f.Dst)
 	}
 	for _, e := range in.Exprs {
-		out.Exprs[e.ID] = doExprs(e.Dst, e.Imports, e.Exprs)
+		out.Exprs[e.ID] = doExprs(e.Dst, e.Imports, e.TParams, e.Exprs)
 	}
 	ob, err := json.Marshal(out)
 	if err != nil {
